@@ -374,6 +374,12 @@ def gen_cases(rng, tier):
     plan.append(('s', dict(symbolic=False, delay='none', undef=False, expanded=False, nz=1, np=1, repeated_cpair=True)))
     plan.append(('s', dict(symbolic=False, delay='none', undef=False, expanded=True, nz=1, np=2, repeated_cpair=True)))
     plan.append(('z', dict(symbolic=False, delay='none', undef=False, expanded=False, nz=1, np=1, repeated_cpair=True)))
+    # continued-fraction friendly (no delay / undef; proper, improper and ladder-like)
+    for dom, nz_, np_, ex in (('s', 3, 2, True), ('s', 2, 2, False), ('z', 3, 1, True), ('s', 1, 3, True), ('omega', 2, 1, False), ('s', 2, 3, False)):
+        plan.append((dom, dict(symbolic=False, delay='none', undef=False, expanded=ex, nz=nz_, np=np_, complex=(dom == 's'), nocommon_origin=True)))
+    plan.append(('s', dict(symbolic=True, delay='none', undef=False, expanded=False, nz=1, np=1)))
+    plan.append(('s', dict(symbolic=False, delay='none', undef=False, expanded=False, nz=0, np=0, gain=Fraction(5, 3))))
+    plan.append(('s', dict(symbolic=False, delay='num', undef=True, expanded=False, nz=2, np=0)))
     for i in range(n_rand):
         dom = rng.choice(['s', 's', 's', 'z', 'z', 'omega', 'f'])
         symbolic = rng.random() < 0.3
@@ -479,8 +485,6 @@ def oracle_case(c, r):
                 if d.is_zero() or n / d != orig[k]:
                     bad.append((key, k, 'N/D'))
                     break
-            if not m.get('D_is_poly', True):
-                bad.append((key, 0, 'D not a polynomial'))
         if key in ('poles', 'zeros'):
             ok, full = oracle_roots(A if key == 'poles' else B, [(G.des(p), n) for p, n in m['roots']])
             if not ok:
@@ -947,7 +951,9 @@ def run(tier='quick', replay=None):
                 res.count('symbolic')
             if t.get('repeated_conjugate_poles'):
                 res.count('repeated_conjugate_poles')
-            for key, _, _ in ALL_METHODS:
+            if not r['m'].get('ND', {}).get('D_is_poly', True):
+                res.count('note:D_not_polynomial(no polynomial denominator; sympy as_numer_denom fallback)')
+            for key, _, _ in c['methods']:
                 m = r['m'].get(key, {'error': 'missing'})
                 if 'error' in m:
                     res.count('method_error:' + key)
